@@ -19,6 +19,10 @@ type Clause struct {
 	Line  int
 	File  string
 	Props []string // restricts the properties this clause serves (empty = the function's)
+	// Group: assumptions made from this clause (assumed invariant, callee postcondition) are visible only to
+	// obligations generated from clauses of the same group; ungrouped assumptions are visible to all.
+	// Used to keep mutually triggering quantified facts (forall-exists both ways) out of each other's context.
+	Group string
 }
 
 type LoopSpec struct {
@@ -97,6 +101,7 @@ var clauseKW = map[string]bool{"serves": true, "requires": true, "ensures": true
 func fkey(pkg, name string) string { return pkg + " " + name }
 
 var labelRe = regexp.MustCompile(`^([A-Za-z_][A-Za-z0-9_\.]*)\s*:\s+(.*)$`)
+var groupRe = regexp.MustCompile(`^\{([A-Za-z0-9_]+)\}\s*(.*)$`)
 var propTagRe = regexp.MustCompile(`^\[([C0-9, ]+)\]\s*(.*)$`)
 
 func LoadContracts(repo string, pkgDirs map[string]string) (*Contracts, error) {
@@ -356,6 +361,10 @@ func mkClause(text, file string, line int) (*Clause, error) {
 	cl := &Clause{Text: text, Line: line, File: file}
 	if m := propTagRe.FindStringSubmatch(text); m != nil {
 		cl.Props = strings.Fields(strings.ReplaceAll(m[1], ",", " "))
+		text = m[2]
+	}
+	if m := groupRe.FindStringSubmatch(text); m != nil {
+		cl.Group = m[1]
 		text = m[2]
 	}
 	if m := labelRe.FindStringSubmatch(text); m != nil && !strings.Contains(m[1], "(") {
